@@ -336,6 +336,14 @@ type Once struct {
 
 func (o *Once) Do(f func()) {
 	s := vrt.Cur()
+	if s == nil {
+		// outside any execution (harness set-up code): single-threaded, run it here
+		if !o.done {
+			o.done = true
+			f()
+		}
+		return
+	}
 	if s.IsAborting() {
 		return
 	}
